@@ -18,7 +18,7 @@ def kind_of(sim):
     return "SIS" if sim in SIS_CONT + SIS_DISC else "SIR"
 
 
-RULE_SIM = "discrete_SIR(recovery rule)"      # discrete_SIR with a user test_recovery: a node recovers the second time it is asked
+RULE_SIM = "discrete_SIR(recovery rule)"      # discrete_SIR with a stateful user test_recovery
 
 
 def is_discrete(sim):
@@ -162,8 +162,12 @@ def call_sim(EoN, sim, G, sc, full):
         asked = {}
 
         def test_recovery(node):
+            # stateful rules: even-labelled nodes recover the 2nd time they are asked, odd-labelled ones answer
+            # no, no, yes, no, no, no, yes ... (a rule is asked once per node and step)
             asked[node] = asked.get(node, 0) + 1
-            return asked[node] >= 2
+            return asked[node] >= 2 if node % 2 == 0 else asked[node] % 4 == 3
+        if "tmax" not in kw:
+            kw["tmax"] = kw["tmin"] + 60      # a rule that never says yes must not make the run endless
         return EoN.discrete_SIR(G, args=(p,), test_recovery=test_recovery, **kw)
     if sim == "basic_discrete_SIR":
         return EoN.basic_discrete_SIR(G, p, **kw)
@@ -199,14 +203,22 @@ def seed_all(s):
 def observe_full(sim_obj, G, with_queries=None):
     nodes = sorted(G.nodes())
     hist = {u: ([float(t) for t in sim_obj.node_history(u)[0]], list(sim_obj.node_history(u)[1])) for u in nodes}
+    changed = None
     try:
         tr = [(float(t), u, v) for (t, u, v) in sim_obj.transmissions()]
+        # the caller owns the graph it is handed: pruning it (as one does to look at a sub-tree) must not change what
+        # the next call serves
+        first = sim_obj.transmission_tree()
+        first_edges = [(u, v, float(d["time"])) for (u, v, d) in first.edges(data=True)]
+        first.clear()
         tree = [(u, v, float(d["time"])) for (u, v, d) in sim_obj.transmission_tree().edges(data=True)]
+        if sorted(map(repr, tree)) != sorted(map(repr, first_edges)):
+            changed = (len(first_edges), len(tree))
     except Exception as ex:
         tr = None
         tree = repr(ex)
     summ = sim_obj.summary()
-    out = {"hist": hist, "trans": tr, "tree": tree,
+    out = {"hist": hist, "trans": tr, "tree": tree, "tree_changed": changed,
            "summary": ([float(x) for x in summ[0]], {k: [int(x) for x in v] for k, v in summ[1].items()})}
     return out
 
